@@ -352,5 +352,205 @@ theorem opScanNumber_eq_dot (text : List Char) (fuel k : Nat) (h : L text < fuel
     res_rd, hd, Bool.not_true, Bool.false_eq_true, Nat.add_sub_cancel]
   exact numberRest_eq text fuel _ k h
 
+/-! ## comments -/
+
+theorem slash_ne_eof : ¬ ('/' : Char) = eofRune := by decide
+theorem star_ne_eof : ¬ ('*' : Char) = eofRune := by decide
+
+/-- `skipCommentLoop` on a cursor. -/
+def cmtC (star : Bool) (c : Cursor) : Bool × Cursor :=
+  ((skipCommentLoop c.fin c.rest star c.prev c.off).1,
+    { c with rest := (skipCommentLoop c.fin c.rest star c.prev c.off).2.1,
+             prev := (skipCommentLoop c.fin c.rest star c.prev c.off).2.2.1,
+             off := (skipCommentLoop c.fin c.rest star c.prev c.off).2.2.2 })
+
+theorem skipUntilEndComment_cmtC (c : Cursor) : skipUntilEndComment c = cmtC false c := rfl
+
+theorem drop_succ_nil (text : List Char) (k : Nat)
+    (h : List.drop k (Cursor.ofRunes text).rest = []) :
+    List.drop (k + 1) (Cursor.ofRunes text).rest = [] := by
+  simp only [List.drop_eq_nil_iff] at h ⊢
+  omega
+
+theorem cmtC_curAt (text : List Char) (star : Bool) (k : Nat) :
+    cmtC star (curAt text k) =
+      if (streamAt text k).1 = eofRune then (false, curAt text (k + 1))
+      else if star = true ∧ (streamAt text k).1 = '/' then (true, curAt text (k + 1))
+      else cmtC (decide ((streamAt text k).1 = '*')) (curAt text (k + 1)) := by
+  rcases drop_cases (Cursor.ofRunes text).rest (eofRune, (Cursor.ofRunes text).fin) k with h | h
+  · have hs : streamAt text k = (eofRune, (Cursor.ofRunes text).fin) := h.2
+    simp only [hs, ↓reduceIte]
+    simp only [cmtC, curAt, h.1, skipCommentLoop, currAt_succ, hs, drop_succ_nil text k h.1]
+  · generalize hsk : streamAt text k = x
+    obtain ⟨c, q⟩ := x
+    have hr : (curAt text k).rest = (c, q) :: (curAt text (k + 1)).rest := by
+      simp only [curAt]; rw [h]; congr 1
+    have hp : (curAt text (k + 1)).prev = (c, q) := by simp only [curAt, currAt_succ, hsk]
+    simp only [cmtC, hr, skipCommentLoop]
+    by_cases h1 : c = eofRune
+    · simp only [h1, ↓reduceIte]
+      simp only [curAt, currAt_succ, hsk, h1]
+    · by_cases h2 : star = true ∧ c = '/'
+      · simp only [h1, h2, and_self, ↓reduceIte]
+        simp only [curAt, currAt_succ, hsk, h2, slash_ne_eof, ↓reduceIte]
+      · simp only [h1, h2, ↓reduceIte]
+        simp only [hp]
+        simp only [curAt]
+
+theorem opSkipUntilEndComment_eq (text : List Char) (fuel : Nat) : ∀ b k, Fuel text fuel k →
+    cmtC b (curAt text k) =
+      (((opSkipUntilEndComment fuel b).res text k).1,
+        curAt text ((opSkipUntilEndComment fuel b).res text k).2) := by
+  induction fuel with
+  | zero => intro b k h; simp [Fuel] at h
+  | succ fuel ih =>
+    intro b k h
+    rw [cmtC_curAt]
+    by_cases he : (streamAt text k).1 = eofRune
+    · cases b <;>
+        simp [opSkipUntilEndComment, res_bind, res_rd, resK_mk, res_ite, res_pure, he, eofRune]
+    · have ih' := fun b' => ih b' (k + 1) (fuel_step text fuel k h he)
+      cases b
+      · simp only [opSkipUntilEndComment, res_bind, res_rd, resK_mk, res_ite, res_pure]
+        by_cases hs : (streamAt text k).1 = '*'
+        · simp [he, hs, ih', star_ne_eof]
+        · simp [he, hs, ih']
+      · simp only [opSkipUntilEndComment, res_bind, res_rd, resK_mk, res_ite, res_pure]
+        by_cases hsl : (streamAt text k).1 = '/'
+        · simp [he, hsl, slash_ne_eof]
+        · by_cases hs : (streamAt text k).1 = '*'
+          · simp [he, hs, ih', star_ne_eof]
+          · simp [he, hs, hsl, ih']
+
+/-! ## the switch of `Scan` -/
+
+theorem opScan4_eq (text : List Char) (ch0 : Char) (pos : Pos) (k : Nat) :
+    scanFrom4 ch0 pos (curAt text k) =
+      (((opScan4 ch0 pos).res text k).1, curAt text ((opScan4 ch0 pos).res text k).2) := by
+  simp only [scanFrom4, opScan4, res_ite, res_bind, res_rd, resK_mk, res_unrd, res_pure, curAt_peek,
+    curAt_read]
+  repeat' split
+  all_goals simp
+
+theorem opScan3_eq (text : List Char) (ch0 : Char) (pos : Pos) (k : Nat) :
+    scanFrom3 ch0 pos (curAt text k) =
+      (((opScan3 ch0 pos).res text k).1, curAt text ((opScan3 ch0 pos).res text k).2) := by
+  simp only [scanFrom3, opScan3, res_ite, res_bind, res_rd, resK_mk, res_unrd, res_pure, curAt_peek,
+    curAt_read, opScan4_eq]
+  repeat' split
+  all_goals simp_all
+
+theorem opScan2_eq (text : List Char) (fuel : Nat) (ch0 : Char) (pos : Pos) (k : Nat)
+    (h : L text < fuel) :
+    scanFrom2 ch0 pos (curAt text k) =
+      (((opScan2 fuel ch0 pos).res text k).1, curAt text ((opScan2 fuel ch0 pos).res text k).2) := by
+  have hn := opSkipUntilNewline_eq text fuel (k + 1) (fuel_of_abs text fuel _ h)
+  have hc := opSkipUntilEndComment_eq text fuel false (k + 1) (fuel_of_abs text fuel _ h)
+  simp only [scanFrom2, opScan2, res_ite, res_bind, res_rd, resK_mk, res_unrd, res_pure, curAt_peek,
+    curAt_read, opScan3_eq, skipUntilEndComment_cmtC, hn, hc]
+  generalize (opSkipUntilNewline fuel).res text (k + 1) = r1
+  generalize (opSkipUntilEndComment fuel false).res text (k + 1) = r2
+  obtain ⟨u, k1⟩ := r1
+  obtain ⟨ok, k2⟩ := r2
+  simp only [resK_mk, res_ite, res_pure]
+  repeat' split
+  all_goals simp_all
+
+/-! ## strings -/
+
+/-- `scanStringLoop` on a cursor. -/
+def strC (ending : Char) (acc : List Char) (c : Cursor) : List Char × Option StrErr × Cursor :=
+  ((scanStringLoop ending c.fin c.rest acc c.prev c.off).1,
+   (scanStringLoop ending c.fin c.rest acc c.prev c.off).2.1,
+    { c with rest := (scanStringLoop ending c.fin c.rest acc c.prev c.off).2.2.1,
+             prev := (scanStringLoop ending c.fin c.rest acc c.prev c.off).2.2.2.1,
+             off := (scanStringLoop ending c.fin c.rest acc c.prev c.off).2.2.2.2 })
+
+theorem strC_step (ending : Char) (hend : ending ≠ eofRune) (acc : List Char) (c : Cursor) :
+    strC ending acc c =
+      if c.read.1.1 = ending then (acc, none, c.read.2)
+      else if c.read.1.1 = eofRune ∨ c.read.1.1 = '\n' then (acc, some .badString, c.read.2)
+      else if c.read.1.1 = '\\' then
+        if c.read.2.read.1.1 = 'n' then strC ending (acc ++ ['\n']) c.read.2.read.2
+        else if c.read.2.read.1.1 = '\\' then strC ending (acc ++ ['\\']) c.read.2.read.2
+        else if c.read.2.read.1.1 = '"' then strC ending (acc ++ ['"']) c.read.2.read.2
+        else if c.read.2.read.1.1 = '\'' then strC ending (acc ++ ['\'']) c.read.2.read.2
+        else (['\\', c.read.2.read.1.1], some .badEscape, c.read.2.read.2)
+      else strC ending (acc ++ [c.read.1.1]) c.read.2 := by
+  have hne : ¬ eofRune = ending := fun e => hend e.symm
+  have e1 : ¬ eofRune = 'n' := by decide
+  have e2 : ¬ eofRune = '\\' := by decide
+  have e3 : ¬ eofRune = '"' := by decide
+  have e4 : ¬ eofRune = '\'' := by decide
+  obtain ⟨prev, rest, fin, off⟩ := c
+  cases rest with
+  | nil => simp [strC, Cursor.read, scanStringLoop, hne]
+  | cons x t =>
+    obtain ⟨ch, q⟩ := x
+    cases t with
+    | nil =>
+      simp only [strC, Cursor.read, scanStringLoop]
+      repeat' split
+      all_goals simp_all
+    | cons y t1 =>
+      obtain ⟨ch1, q1⟩ := y
+      simp only [strC, Cursor.read, scanStringLoop]
+      repeat' split
+      all_goals simp_all
+
+theorem strLoop_eq (text : List Char) (ending : Char) (hend : ending ≠ eofRune) (fuel : Nat) :
+    ∀ acc k, Fuel text fuel k →
+    strC ending acc (curAt text k) =
+      (((strLoop ending fuel acc).res text k).1.1, ((strLoop ending fuel acc).res text k).1.2,
+        curAt text ((strLoop ending fuel acc).res text k).2) := by
+  induction fuel with
+  | zero => intro acc k h; simp [Fuel] at h
+  | succ fuel ih =>
+    intro acc k h
+    rw [strC_step ending hend]
+    simp only [curAt_read, strLoop, res_bind, res_readRune, resK_mk, res_ite, res_pure]
+    by_cases h1 : (streamAt text k).1 = ending
+    · simp [h1]
+    · by_cases h2 : (streamAt text k).1 = eofRune
+      · simp only [h2, true_or, beq_self_eq_true, ↓reduceIte]; split <;> rfl
+      · have hf := fuel_step text fuel k h h2
+        have hf2 : Fuel text fuel (k + 1 + 1) := by simp only [Fuel] at hf ⊢; omega
+        by_cases h3 : (streamAt text k).1 = '\n'
+        · simp only [h3, or_true, ↓reduceIte]; split <;> rfl
+        · by_cases h4 : (streamAt text k).1 = '\\'
+          · simp only [h1, h2, h3, h4, ↓reduceIte, or_self, beq_iff_eq]
+            repeat' split
+            all_goals first
+              | exact ih _ _ hf2
+              | simp_all
+          · simp only [h1, h2, h3, h4, ↓reduceIte, or_self, beq_iff_eq]
+            exact ih _ _ hf
+
+theorem opScanString_eq (text : List Char) (fuel k : Nat) (h : L text < fuel) :
+    scanStringRaw (curAt text k) =
+      (((opScanString fuel).res text k).1.1, ((opScanString fuel).res text k).1.2,
+        curAt text ((opScanString fuel).res text k).2) := by
+  simp only [scanStringRaw, curAt_read, opScanString, res_bind, res_readRune, resK_mk, res_ite, res_pure]
+  by_cases he : (streamAt text k).1 = eofRune
+  · simp [he]
+  · have := strLoop_eq text (streamAt text k).1 he fuel [] (k + 1) (fuel_of_abs text fuel _ h)
+    simp only [strC] at this
+    simp [he, this]
+
+/-- `Scanner.scanString()` entered after the opening quote was read at `k`. -/
+theorem opScannerScanString_eq (text : List Char) (fuel k : Nat) (h : L text < fuel) :
+    scanString (curAt text k) =
+      (((opScannerScanString fuel).res text (k + 1)).1,
+        curAt text ((opScannerScanString fuel).res text (k + 1)).2) := by
+  have h1 := opScanString_eq text fuel k h
+  simp only [scanString, opScannerScanString, res_bind, res_unrd, resK_mk, res_cur, Nat.add_sub_cancel, h1,
+    curAt_prev]
+  generalize (opScanString fuel).res text k = r
+  obtain ⟨⟨lit, e⟩, k1⟩ := r
+  simp only [resK_mk]
+  cases e with
+  | none => simp [res_pure]
+  | some e => cases e <;> simp [res_pure, res_bind, res_cur, resK_mk, curAt_prev]
+
 end InfluxQL.ScanOps
 
